@@ -36,7 +36,7 @@ CLAIMED = {
 CLAIMED.update({
     "C03": dict(
         level="other",
-        technique="guard-dominance, index-discipline and symbolic margin rules (syntax tree + exact algebra); lane/bounds dataflow for the kernels",
+        technique="guard-dominance, index-discipline and symbolic margin rules (syntax tree + exact algebra); lane/bounds dataflow for the kernels; MIR-enumerated arithmetic trap sites with lower-bound abstract interpretation",
         text=("Decides necessary structural conditions for memory safety on every history: the two asserts dominate every unsafe kernel and use the table's own "
               "dimensions; all loads of the 7 kernels stay inside wave[index..index+length) and the packed rows; unchecked per-channel accesses are indexed by the "
               "enumerate index of a never-resized mask; fixed-output writes are bounded by the validated chunk size; validate_buffers accepts exact-size buffers; "
@@ -44,7 +44,10 @@ CLAIMED.update({
               "the constructor's buffer is at least history + the largest request (sound inequality prover); SIMD interpolators refuse construction unless exactly the CPU features their "
               "#[target_feature] kernels need are detected; sub-indices stay below the oversampling factor; fixed-input loop margin and history length cover the admissible steps "
               "(today six genuine defects are reported as KNOWN-FINDING: margin and history for both fixed-input types, oversampling factor 1 with Cubic/Quadratic for both sinc types). "
-              "Run-time position arithmetic beyond these margins (ramp overshoot, integer overflow) is NOT decided."),
+              "Every explicit panic site of the crate is in a reviewed table (semantic match of the assertion); every unsigned subtraction, integer division/remainder and chunks() size "
+              "(sites enumerated from MIR, type-resolved) is covered by a guard, loop range, non-zero literal, floor-multiple identity or a field shown positive by a lower-bound evaluation of the "
+              "constructors (FFT block sizes >= 1 for every accepted configuration); FftFixedOut's end-of-call request fits its block buffer; every function a rule interprets has no early success "
+              "exit, break or continue (R-control). Run-time position arithmetic beyond these margins (ramp overshoot, overflow of additions/multiplications) is NOT decided."),
         note="Trusted: syn parser, sympy, intrinsic lane table. Not decided: value-dependent index bounds outside the margin rules; oversampling_factor 1 with Cubic/Quadratic.",
         design="5 C03", engine="astfacts+rules"),
     "C05": dict(
@@ -70,7 +73,8 @@ CLAIMED.update({
         technique="exact polynomial algebra over Q on the literal coefficient tables + window-selection rules (syntax tree)",
         text=("Decides for every input that interp_septic/quintic/cubic/lin are the unique Lagrange interpolants on the consecutive integer nodes derived from the code "
               "(20 identities + degree bounds pin all 40 coefficients), that each of the 10 arms feeds its blend function the window floor(idx)-k..+n with k the position "
-              "of node 0 and x = idx - floor(idx), that Nearest reads floor(idx), and that FixedIn/FixedOut arms agree. 'To rounding' and the sinusoid bound are NOT decided."),
+              "of node 0 and x = idx - floor(idx) (computed in f64, converted to the sample type last), that Nearest reads floor(idx), that FixedIn/FixedOut arms agree, and that the "
+              "history buffer the window is cut from is carried correctly between calls (shift / rebase / pre-roll rules shared with C05). 'To rounding' and the sinusoid bound are NOT decided."),
         note="Trusted: syn parser, sympy exact arithmetic. Stepping by 1/ratio: C06.",
         design="5 C08", engine="astfacts+rules"),
     "C10": dict(
@@ -87,7 +91,8 @@ CLAIMED.update({
         technique="lane-provenance dataflow (abstract interpretation over a multiset-of-products domain) on the kernel sources",
         text=("Decides for all waveforms, indices and sub-indices that each of the 7 kernels (AVX/SSE/NEON x f32/f64 + scalar) accumulates exactly the products "
               "wave[index+i]*sinc[i], i < 8*floor(N/8), each once, lane i with lane i, and that every accumulator lane reaches the result exactly once - i.e. the scalar "
-              "kernel's sum up to association order; reads are confined to wave[index..index+length); dispatch tries AVX>SSE>NEON>scalar with identical arguments. "
+              "kernel's sum up to association order; reads are confined to wave[index..index+length); pack_sincs stores a plain view of the table rows (the loaded vector derives from the "
+              "parameter only through iter/chunks/&E[0] and is pushed unchanged); dispatch tries AVX>SSE>NEON>scalar with identical arguments. "
               "The ulp bound itself is NOT decided; NEON is analysed from source only."),
         note="Trusted: syn parser and the enumerated intrinsic transfer table (unaligned loads only; unknown intrinsics fail closed).",
         design="5 C15", engine="astfacts+rules"),
@@ -159,7 +164,8 @@ CLAIMED.update({
               "inputs: interp_cubic/quad/lin are the exact Lagrange interpolants on nodes equal to the sub-index offsets of get_nearest_times_{4,3,2} (with seamless wrap), every arm "
               "pairs them correctly with x = frac(idx*factor); the fractional-delay table is centred at totpoints/2, scaled by f_cutoff/factor, oriented so that sub-filter s+1 "
               "evaluates 1/factor later and continuous across the sub-index wrap; In/Out arms agree; the cutoff is never lowered; kernels add each tap once; the FFT unit has the "
-              "right overlap-add structure, scaling and retained bins."),
+              "right overlap-add structure, scaling and retained bins; the history carried between chunks (sinc types) and the FFT block accounting (shared with C05) make the "
+              "stream independent of the chunking."),
         note="Trusted: syn parser, sympy, realfft transforms unnormalised. Everything numeric is listed under not_decided in the evidence.",
         design="5 C01", engine="astfacts+rules"),
     "C02": dict(
@@ -167,8 +173,9 @@ CLAIMED.update({
         technique="necessary-condition rules: piecewise cutoff algebra, window-table exhaustiveness and exact window definitions (syntax tree + sympy)",
         text=("NECESSARY STRUCTURAL CONDITIONS ONLY - no attenuation figure is decided. Decided: the cutoff handed to every kernel is at most f_cutoff, and at most f_cutoff*ratio when "
               "down-sampling (removing that scaling is reported); the FFT unit's cutoff is calculate_cutoff(min(in,out))*min(1,out/in) and its spectrum is truncated to min(in+1,out) bins and "
-              "zero-filled; every WindowFunction variant selects the base window named after it, exactly the X2 variants are squared, no wildcard arm swallows a variant, the three base "
-              "windows equal their textbook periodic definitions, calculate_cutoff covers all variants with the documented closed form."),
+              "zero-filled; make_window, evaluated abstractly once per WindowFunction variant, yields the base window named after the variant, squared exactly for the X2 variants; the three base "
+              "windows equal their textbook periodic definitions, calculate_cutoff covers all variants with the documented closed form; the filter length handed to every kernel is >= the "
+              "requested sinc_len (rounding to the SIMD granularity goes up); the SIMD dispatch passes the same four arguments to every kernel and the kernels add every tap once."),
         note="Trusted: syn parser, sympy.",
         design="5 C02", engine="astfacts+rules"),
     "C11": dict(
@@ -186,7 +193,7 @@ CLAIMED.update({
         technique="alignment model: symbolic consistency between initial read position, kernel centre (derived from make_sincs / blend node layout) and the reported delay formula",
         text=("Decides, per type and for all ratios / lengths, whether output_delay() is consistent with where the stream actually starts: reported/ratio must equal -(initial read "
               "position + kernel centre offset) for the asynchronous types and the filter centre fft_size_in/2 scaled to output frames for the FFT types, within one sample; siblings must "
-              "agree. Today the two sinc types violate it (KNOWN-FINDING: they report sinc_len*ratio/2 although the start position already compensates the kernel centre; reproduced with an "
+              "agree; the allocating wrappers the README recipe uses return exactly the frames the core call reports (shared with C16). Today the two sinc types violate it (KNOWN-FINDING: they report sinc_len*ratio/2 although the start position already compensates the kernel centre; reproduced with an "
               "impulse). The measured group delay of the filters is NOT decided."),
         note="Trusted: syn parser, sympy. A consistency condition between three places in the code, not a measurement.",
         design="5 C14", engine="astfacts+rules"),
